@@ -411,6 +411,18 @@ def c14_4(ctx):
     ok = len(rem) >= 4 and all(unparse(n.value) == "instruction_str.replace(line_obj.instruction, '', 1).strip()" for n in rem)
     ctx.check(ok, 'consume:loop-removes-object-text', pl.site(), 'the statement loop removes exactly the matched object\'s text (first occurrence) from the remaining line',
               '; '.join(sorted({unparse(n.value) for n in rem})))
+    # preprocessor directives whose whole text is described by one pattern: the pattern is anchored at both ends
+    import re._parser as _P
+    whole = [('bespokeasm.assembler.line_object.preprocessor_line.create_memzone.CreateMemzoneLine', 'PATTERN_CREATE_MEMORY_ZONE', True),
+             ('bespokeasm.assembler.line_object.preprocessor_line.define_symbol.DefineSymbolLine', 'PATTERN_DEFINE_SYMBOL', True),
+             ('bespokeasm.assembler.line_object.preprocessor_line.required_language.RequiredLanguageLine', 'PATTERN_REQUIRE_LANGUAGE', True),
+             ('bespokeasm.assembler.preprocessor.condition', 'PREPROCESSOR_CONDITION_IFDEF_PATTERN', False)]
+    for owner, cname, is_cls in whole:
+        v = ctx.fold.class_const(owner, cname) if is_cls else ctx.fold.module_const(owner, cname)
+        items = list(_P.parse(v.pattern, v.flags))
+        ok = bool(items) and str(items[0][0]) == 'AT' and 'BEGINNING' in str(items[0][1]) and str(items[-1][0]) == 'AT' and 'END' in str(items[-1][1])
+        ctx.check(ok, f'consume:directive-pattern-whole:{cname}', f'src/{owner.replace(".", "/")}.py:1' if not is_cls else f'src/{owner.rsplit(".", 1)[0].replace(".", "/")}.py:1',
+                  f'{cname} describes the whole directive (anchored at both ends): text after a valid prefix is not ignored', v.pattern[:90])
     li = ctx.repo.func('bespokeasm.assembler.line_object.LineObject.__init__')
     st = self_attr_stores(li.node, '_instruction')
     ctx.check(len(st) == 1 and unparse(st[0][2]) == 'instruction.strip()', 'consume:object-text-kept', li.site(), 'a line object keeps the text it was given (stripped)', '; '.join(unparse(s[0]) for s in st))
@@ -452,6 +464,8 @@ RULES = [c14_1, c14_2, c14_3, c14_4, c14_5]
 _E = 'assembler/engine.py'
 _F = 'assembler/line_object/factory.py'
 MUTANTS = [
+    V('c14-create-memzone-unanchored', 'assembler/line_object/preprocessor_line/create_memzone.py', "        r'^#create_memzone\\s+({})\\s+({})\\s+({})\\s*$'.format(", "        r'#create_memzone\\s+({})\\s+({})\\s+({})'.format(", 'C14.4'),
+    V('c14-ifdef-unanchored', 'assembler/preprocessor/condition.py', "({SYMBOL_PATTERN})\\s*$'", "({SYMBOL_PATTERN})\\b'", 'C14.4'),
     V('c14-no-image-for-empty-program', 'assembler/engine.py', "        if self._generate_binary:\n", "        if self._generate_binary and last_line is not None:\n", 'C14.2'),
     V('c14-muted-lines-not-generated', 'assembler/engine.py', "            if isinstance(lobj, LineWithBytes):\n                lobj.generate_bytes()", "            if isinstance(lobj, LineWithBytes) and not lobj.is_muted:\n                lobj.generate_bytes()", 'C02.3'),
     V('c14-muted-instruction-unchecked', 'assembler/line_object/instruction_line.py', '        self._bytes.extend(self._assembled_instruction.get_bytes(', '        if self.is_muted:\n            return\n        self._bytes.extend(self._assembled_instruction.get_bytes(', 'C02.5'),
